@@ -1215,6 +1215,10 @@ class ArithmeticExpression(Term):
     def get_sql(self, ctx: SqlContext) -> str:
         left_op, right_op = [getattr(side, "operator", None) for side in [self.left, self.right]]
 
+        # the left operand is rendered first: with a parameterizer, placeholders are numbered in render order
+        left_sql = ("({})" if self.left_needs_parens(self.operator, left_op) else "{}").format(
+            _operand_sql(self.left, ctx)
+        )
         right_sql = _operand_sql(self.right, ctx)
         if self.right_needs_parens(self.operator, right_op) or (
             # "a"--1 would start a comment
@@ -1225,9 +1229,7 @@ class ArithmeticExpression(Term):
 
         arithmetic_sql = "{left}{operator}{right}".format(
             operator=self.operator.value,
-            left=("({})" if self.left_needs_parens(self.operator, left_op) else "{}").format(
-                _operand_sql(self.left, ctx)
-            ),
+            left=left_sql,
             right=right_sql,
         )
 
